@@ -23,7 +23,7 @@ CHECKS = {
          "trusts tlsref/hpkeref (validated on each run against crypto/tls); record header not covered by flips", "§3 C02"),
  "C03": ("model_checking", "E1 enum",
          "executable reference model of ECH encoding/reconstruction (draft §5.1, App. B) + total replay of every enumerated layout on the real NewConn",
-         "Every compression subset of 6 shared extensions x every marker position x inner-ECH position x outer layout x padding x session-id length x AEAD is sealed by the reference sender and the record forwarded by the real Conn is compared byte for byte with the reference reconstruction; all model traces are replayed on the implementation.",
+         "Reference counts 1..127, ALPN lists up to 20000 names, and for the hello after a HelloRetryRequest every pair of compression subsets x cookie handling x every two-record framing; every compression subset of 6 shared extensions x every marker position x inner-ECH position x outer layout x padding x session-id length x AEAD is sealed by the reference sender and the record forwarded by the real Conn is compared byte for byte with the reference reconstruction; all model traces are replayed on the implementation.",
          "trusts tlsref/hpkeref (validated against crypto/tls and RFC 9180 vectors at every run); outer hellos never repeat an extension type", "§3 C03"),
  "C04": ("fault_enumeration", "E1 enum",
          "exhaustive fault catalogue applied at every applicable position of spec-built hellos; oracle on error class, alert bytes, Close and readability",
@@ -79,7 +79,7 @@ CHECKS = {
          "zero-time computation; sequentially consistent memory at synchronisation granularity; scheduler-aware fake transport honouring deadlines; a second transport shape offers CloseRead/CloseWrite like *net.TCPConn; a third transport shape serves buffered bytes before it looks at its read deadline", "§3 C10"),
  "C17": ("fault_enumeration", "E1 enum + E2 envx",
          "exhaustive enumeration of resolution worlds and caller configurations; every tree of per-attempt outcomes (ok / error / ECH rejection with and without retry configs) explored by re-execution; oracle on the DialFunc argument log",
-         "9 resolution worlds (served by an in-memory DoH responder) x 5 caller configs x RequireECH x PublicName x 3 address forms; for each, every outcome vector of the connection attempts is executed on the real Dial; every DialFunc invocation is checked for RequireECH, caller-supplied list/ServerName preservation, per-record ECH list, host-derived server name, exactly one retry with exactly the server's retry configs, and the caller's tls.Config is compared before/after.",
+         "Resolution worlds (served by an in-memory DoH responder; origins also on loopback / unspecified / link-local / multicast addresses) and 47040 two-call outcome histories on one long-lived Dialer compared with a fresh Dialer; 9 base worlds x 5 caller configs x RequireECH x PublicName x 3 address forms; for each, every outcome vector of the connection attempts is executed on the real Dial; every DialFunc invocation is checked for RequireECH, caller-supplied list/ServerName preservation, per-record ECH list, host-derived server name, exactly one retry with exactly the server's retry configs, and the caller's tls.Config is compared before/after.",
          "real goroutines (MaxConcurrency 1 makes the log sequential; failures re-run 5x); expected per-address ECH lists and admissible dial addresses written by hand per world (independent of ResolveResult.Targets); the DialFunc that NewDialer installs is replaced by a fake in every scenario and only exercised by a supplementary (sampled, reported separately) -race pass; one long-lived Dialer with settings changed between Dials is enumerated separately (sequences of <=3 Dials)", "§3 C17"),
  "C19": ("model_checking", "E1 enum + E4 hist",
          "exhaustive decision table for the HTTP/3 choice and record filtering against a reference function; every request history up to the depth bound through the real net/http stack over in-memory TLS servers against a reference",
